@@ -391,3 +391,52 @@ Proof.
   - repeat constructor.
   - vm_compute. discriminate.
 Qed.
+
+(** ---- a start state read from the implementation: the run-time check [desc_b] is [desc] ---- *)
+Lemma desc_b_spec {A} (l : list (Z * A)) : desc_b l = true <-> desc l.
+Proof.
+  induction l as [|[q a] r IH]; cbn [desc_b].
+  - split; [constructor|reflexivity].
+  - rewrite Bool.andb_true_iff, forallb_forall, IH. split.
+    + intros [HF Hd]. apply desc_cons; [exact Hd|]. apply Forall_forall. intros e He. specialize (HF e He). lia.
+    + intros Hd. apply desc_inv in Hd as [Hd HF]. split; [|exact Hd].
+      intros e He. rewrite Forall_forall in HF. specialize (HF e He). lia.
+Qed.
+
+Lemma d_extensions_desc x e : d_extensions x = Some e -> ext_desc e.
+Proof.
+  unfold d_extensions. destruct x as [| |[|ls [|ms [|]]]]; try discriminate.
+  destruct (d_list (d_list d_entry) ls) as [l|]; [|discriminate].
+  destruct (d_list (d_list d_B) ms) as [m|]; [|discriminate].
+  destruct (Nat.eqb (length l) 5 && Nat.eqb (length m) 3 && forallb desc_b l && forallb keys_sorted_b m)%bool eqn:E; [|discriminate].
+  intros H. inversion H; subst. unfold ext_desc. cbn [e_lists].
+  apply Bool.andb_true_iff in E as [E _]. apply Bool.andb_true_iff in E as [_ E].
+  rewrite forallb_forall in E. apply Forall_forall. intros y Hy. apply desc_b_spec. apply E. exact Hy.
+Qed.
+
+(** ---- the hash maps as key sets: insert adds exactly that key, remove deletes exactly that key ---- *)
+Lemma bcmp_eq a c : bcmp a c = Eq <-> a = c.
+Proof.
+  revert c. induction a as [|x a IH]; intros [|y c]; cbn [bcmp]; try (split; [discriminate|discriminate]); [split; reflexivity|].
+  destruct (N.compare_spec x y) as [->|Hlt|Hgt].
+  - rewrite IH. split; [intros ->; reflexivity|intros H; inversion H; reflexivity].
+  - split; [discriminate|]. intros H. inversion H. lia.
+  - split; [discriminate|]. intros H. inversion H. lia.
+Qed.
+
+Lemma key_insert_in k m q : In q (key_insert k m) <-> q = k \/ In q m.
+Proof.
+  induction m as [|x m IH]; cbn [key_insert].
+  - cbn [In]. split; [intros [<-|[]]; left; reflexivity|intros [->|[]]; left; reflexivity].
+  - destruct (bcmp k x) eqn:E.
+    + apply bcmp_eq in E. subst x. cbn [In]. split; [intros H; right; exact H|intros [->|H]; [left; reflexivity|exact H]].
+    + cbn [In]. split; [intros [<-|H]; [left; reflexivity|right; exact H]|intros [->|H]; [left; reflexivity|right; exact H]].
+    + cbn [In]. rewrite IH. tauto.
+Qed.
+
+Lemma key_remove_in k m q : In q (key_remove k m) <-> q <> k /\ In q m.
+Proof.
+  unfold key_remove. rewrite filter_In. split.
+  - intros [Hin Hn]. split; [|exact Hin]. intros ->. rewrite beq_refl in Hn. discriminate.
+  - intros [Hn Hin]. split; [exact Hin|]. destruct (beq q k) eqn:E; [|reflexivity]. apply beq_eq in E. contradiction.
+Qed.
